@@ -37,6 +37,7 @@ type PropConfig struct {
 	Lemmas    []string `json:"lemmas"`         // smt2 files with standalone lemma obligations
 	TimeoutQ  int      `json:"timeout_quick"`
 	TimeoutT  int      `json:"timeout_thorough"`
+	SelfCheck bool     `json:"thorough_selfcheck"` // thorough: run the replay driver on the unchanged tree, it must not reproduce
 }
 
 type KnownFinding struct {
@@ -409,6 +410,19 @@ func cmdCheck(args []string) {
 			}
 		}
 	}
+	// thorough tier: the property's replay driver is also run against the unchanged tree as an independent oracle;
+	// it must NOT reproduce anything (recorded findings have their own mode and are not exercised here)
+	var selfcheck map[string]interface{}
+	if *tier == "thorough" && cfg.Replay != "" && cfg.SelfCheck {
+		script := filepath.Join(*verif, "replay", cfg.Replay+".sh")
+		cmd := exec.Command("bash", script, "/dev/null", *repo)
+		cmd.Dir = *verif
+		out, err := cmd.CombinedOutput()
+		selfcheck = map[string]interface{}{"cmd": "replay/" + cfg.Replay + ".sh /dev/null " + *repo, "reproduced": err == nil, "output_tail": truncate(tail(string(out), 12), 2000)}
+		if err == nil {
+			printViolation(id+"#replay-driver-on-the-unchanged-tree", selfcheck, true)
+		}
+	}
 	for _, n := range cfg.Notes {
 		assumptions[n] = true
 	}
@@ -424,6 +438,7 @@ func cmdCheck(args []string) {
 		"solver_time_s":      round3(solveTime),
 		"samples":            samples,
 		"slowest_obligations": slowest(slow),
+		"replay_driver_selfcheck": selfcheck,
 		"checker_cmd":        fmt.Sprintf("/verif/bin/govc check %s (VC generation over go/ssa of /repo, tags=verif; z3-new 5.1.0 batch then z3-new/z3 4.8.12/cvc5 1.0.3 raced per obligation, %ds limit)", id, timeout),
 		"trusted_base":       sortedKeys(assumptions),
 		"bounded":            bounded,
